@@ -26,12 +26,14 @@ import (
 	"strings"
 	"sync"
 	"syscall"
+	"time"
 
 	"verif/harness/internal/hx"
 )
 
 func main() {
 	hx.Commands["run1"] = cmdRun1
+	hx.Commands["multi"] = cmdMulti
 	hx.Commands["extract"] = cmdExtract
 	hx.Commands["confirm"] = cmdConfirm
 	hx.Main()
@@ -55,6 +57,7 @@ type Event struct {
 
 type Input struct {
 	Name  string  `json:"name"`
+	Env   string  `json:"env"` // normal / ro_dir / longname / ro_file : the environment the command runs in
 	Fmt   string  `json:"fmt"` // text / fail / panic : what `falco fmt FILE` does
 	L     int     `json:"L"`
 	Olen  int     `json:"olen"`
@@ -127,6 +130,7 @@ func cmdExtract(args []string) int {
 	dir := fs.String("dir", "", "work dir")
 	big := fs.Int("big", 300, "size of the big input in KiB")
 	extra := fs.Int("extra", 0, "additional random declaration files")
+	envs := fs.String("envs", "ro_dir,longname,ro_file", "environments besides normal")
 	fs.Parse(args) // nolint:errcheck
 	r := rand.New(rand.NewSource(hx.Seed()))
 	inDir := filepath.Join(*dir, "inputs")
@@ -150,7 +154,7 @@ func cmdExtract(args []string) int {
 	}
 	var inputs []Input
 	add := func(s src) (Input, error) {
-		in := Input{Name: s.name, Olen: len(s.text)}
+		in := Input{Name: s.name, Env: "normal", Olen: len(s.text)}
 		in.File = filepath.Join(inDir, s.name+".vcl")
 		in.NewF = filepath.Join(inDir, s.name+".new")
 		if err := os.WriteFile(in.File, []byte(s.text), 0o644); err != nil {
@@ -203,6 +207,23 @@ func cmdExtract(args []string) int {
 			return 2
 		}
 		inputs = append(inputs, in)
+		// the same file in hostile environments: each gets its own extracted protocol
+		if s.name == "decl" || s.name == "snippet" {
+			for _, env := range strings.Split(*envs, ",") {
+				if env == "" || env == "normal" {
+					continue
+				}
+				ie := in
+				ie.Name, ie.Env, ie.Steps = in.Name+"@"+env, env, nil
+				o := runOne(*falco, *dir, &ie, runSpec{ID: "extract_" + ie.Name})
+				if o.Err != "" || o.Exit == "killed" || o.Why != "" {
+					fmt.Fprintf(os.Stderr, "environment %s not available: %s %s\n", env, o.Err, o.Why)
+					continue
+				}
+				ie.Steps, ie.End = o.Events, o.Exit
+				inputs = append(inputs, ie)
+			}
+		}
 		if s.name == "decl" && in.Fmt == "text" {
 			nb, _ := os.ReadFile(in.NewF)
 			in2, err := add(src{"idem", string(nb)})
@@ -306,12 +327,27 @@ func runOne(falco, base string, in *Input, rs runSpec) Obs {
 		return o
 	}
 	newb, _ := os.ReadFile(in.NewF)
-	target := filepath.Join(rundir, "t.vcl")
+	base0 := "t.vcl"
+	if in.Env == "longname" {
+		base0 = strings.Repeat("n", 246) + ".vcl" // ".<name>.<random>.tmp" exceeds NAME_MAX
+	}
+	target := filepath.Join(rundir, base0)
 	if err := os.WriteFile(target, orig, 0o644); err != nil {
 		o.Err = err.Error()
 		return o
 	}
-	var wrap []string
+	var wrap, envWrap []string
+	nobody := []string{"setpriv", "--reuid=65534", "--regid=65534", "--clear-groups", "--"}
+	switch in.Env {
+	case "ro_dir": // the file is ours and writable, its directory is not
+		os.Chown(target, 65534, 65534) // nolint:errcheck
+		os.Chmod(rundir, 0o555)        // nolint:errcheck
+		envWrap = nobody
+	case "ro_file":
+		os.Chmod(target, 0o444) // nolint:errcheck
+		os.Chmod(rundir, 0o777) // nolint:errcheck
+		envWrap = nobody
+	}
 	var tp tamper
 	var f *Fault
 	if len(rs.Sched) > 0 {
@@ -362,13 +398,16 @@ func runOne(falco, base string, in *Input, rs runSpec) Obs {
 			return o
 		}
 	}
+	wrap = append(wrap, envWrap...)
 	argv := append(append([]string{}, wrap...), falco, "fmt", "-w", target)
-	if len(wrap) > 0 {
-		if p, err := exec.LookPath(wrap[0]); err == nil {
-			argv[0] = p
-		} else {
-			o.Why = wrap[0] + " not available"
-			return o
+	for i, w := range argv[:len(wrap)] {
+		if w == "prlimit" || w == "setpriv" {
+			p, err := exec.LookPath(w)
+			if err != nil {
+				o.Why = w + " not available"
+				return o
+			}
+			argv[i] = p
 		}
 	}
 	tr := trace(argv, rundir, append(cleanEnv(), "HOME="+rundir), target, tp)
@@ -399,7 +438,7 @@ func runOne(falco, base string, in *Input, rs runSpec) Obs {
 	o.File = classify(after, rerr == nil, orig, newb, in.Fmt == "text")
 	ents, _ := os.ReadDir(rundir)
 	for _, e := range ents {
-		if e.Name() != "t.vcl" {
+		if e.Name() != base0 {
 			o.Left = append(o.Left, e.Name())
 		}
 	}
@@ -568,4 +607,125 @@ func cmdRun1(args []string) int {
 	}
 	fmt.Fprintln(os.Stderr, "unknown input", rs.Inp)
 	return 2
+}
+
+// multi: `falco fmt -w f1 ... fn` - several files rewritten by one command.  Every file is judged on its own.
+func cmdMulti(args []string) int {
+	fs := flag.NewFlagSet("multi", flag.ExitOnError)
+	falco := fs.String("falco", "", "falco binary")
+	dir := fs.String("dir", "", "work dir")
+	n := fs.Int("n", 150, "files per command")
+	rounds := fs.Int("rounds", 4, "commands (round 0 runs under the tracer with delayed openat)")
+	fs.Parse(args) // nolint:errcheck
+	r := rand.New(rand.NewSource(hx.Seed() + 7))
+	src := filepath.Join(*dir, "multi_src")
+	os.MkdirAll(src, 0o755) // nolint:errcheck
+	type mf struct {
+		Input
+		orig, newb []byte
+	}
+	files := make([]*mf, *n)
+	for i := range files {
+		text := fmt.Sprintf("# file %d\n", i) + genDecl(r, 1+r.Intn(3))
+		f := &mf{Input: Input{Name: fmt.Sprintf("mf%03d", i), Env: "multi", Olen: len(text)}, orig: []byte(text)}
+		f.File = filepath.Join(src, f.Name+".vcl")
+		os.WriteFile(f.File, f.orig, 0o644) // nolint:errcheck
+		files[i] = f
+	}
+	var wg sync.WaitGroup
+	sem := make(chan struct{}, 16)
+	bad := make(chan string, *n)
+	for _, f := range files {
+		wg.Add(1)
+		sem <- struct{}{}
+		go func(f *mf) {
+			defer wg.Done()
+			defer func() { <-sem }()
+			rc, so, _ := runFalco(*falco, []string{"fmt", f.File}, src)
+			if rc != 0 {
+				bad <- f.Name
+				return
+			}
+			f.Fmt, f.L, f.newb = "text", len(so), so
+			f.Opfx = f.L + 1
+			if len(f.orig) <= len(so) && bytes.Equal(so[:len(f.orig)], f.orig) {
+				f.Opfx = len(f.orig)
+			}
+		}(f)
+	}
+	wg.Wait()
+	select {
+	case b := <-bad:
+		fmt.Fprintln(os.Stderr, "falco fmt failed on generated file", b)
+		return 2
+	default:
+	}
+	out := hx.NewOut()
+	defer out.Close()
+	var ins []Input
+	for _, f := range files {
+		ins = append(ins, f.Input)
+	}
+	out.Write(map[string]any{"files": ins})
+	for round := 0; round < *rounds; round++ {
+		rd, err := os.MkdirTemp(filepath.Join(*dir, "runs"), "m")
+		if err != nil {
+			fmt.Fprintln(os.Stderr, err)
+			return 2
+		}
+		argv := []string{*falco, "fmt", "-w"}
+		for _, f := range files {
+			p := filepath.Join(rd, f.Name+".vcl")
+			os.WriteFile(p, f.orig, 0o644) // nolint:errcheck
+			argv = append(argv, p)
+		}
+		exit := "ok"
+		how := "plain"
+		if round == 0 {
+			how = "traced, openat delayed 300us"
+			tr := trace(argv, rd, cleanEnvMulti(), filepath.Join(rd, "-none-"), tamper{delayOpen: 300 * time.Microsecond})
+			if tr.err != nil {
+				fmt.Fprintln(os.Stderr, "tracer:", tr.err)
+				return 2
+			}
+			if tr.exitCode != 0 {
+				exit = "fail"
+				if isPanic(tr.exitCode, tr.stderr) {
+					exit = "panic"
+				}
+			}
+		} else {
+			cmd := exec.Command(argv[0], argv[1:]...)
+			cmd.Dir = rd
+			cmd.Env = cleanEnvMulti()
+			var se bytes.Buffer
+			cmd.Stderr = &se
+			if err := cmd.Run(); err != nil {
+				exit = "fail"
+				if ee, ok := err.(*exec.ExitError); ok && isPanic(ee.ExitCode(), se.Bytes()) {
+					exit = "panic"
+				}
+			}
+		}
+		for _, f := range files {
+			after, rerr := os.ReadFile(filepath.Join(rd, f.Name+".vcl"))
+			o := Obs{ID: fmt.Sprintf("multi-r%d-%s", round, f.Name), Inp: f.Name, Sched: []Fault{}, How: how, Realised: true, Events: []Event{},
+				Exit: exit, File: classify(after, rerr == nil, f.orig, f.newb, true)}
+			out.Write(o)
+		}
+		os.RemoveAll(rd)
+	}
+	return 0
+}
+
+// the multi-file runs keep the Go runtime's own thread settings: the property there is about concurrency
+func cleanEnvMulti() []string {
+	var env []string
+	for _, e := range cleanEnv() {
+		if strings.HasPrefix(e, "GOMAXPROCS=") || strings.HasPrefix(e, "GOGC=") {
+			continue
+		}
+		env = append(env, e)
+	}
+	return env
 }
